@@ -322,7 +322,7 @@ func Run(o *core.Options) int {
 	}
 	depth := 3
 	if o.Thorough() {
-		depth = 4
+		depth = 5 // every one of the 6^4 abstract states is reached at depth 4; depth 5 expands all of them
 	}
 	r.Set("depth", depth)
 	r.Set("events", len(w.evs))
